@@ -117,7 +117,7 @@ def generate(rng, tier):
         data = rng.choice([b"\x00" * 4, rng.randbytes(4), b"\x00\x00\x00\x01", b"\x80\x00\x00\x00", b"AB\x00\x00"])
         enc = rng.choice([
             ["float", "32", S("IEEE754"), S(MSB), ["-", []]],
-            ["str", S("UTF-8"), "16", "-", "-", "1", "-", "-", "-"],
+            ["str", S("UTF-8"), "16", "-", "-", "1", "-", "-", "-", "-"],
             ["bin", "16", "-", "1", "-", "-"],
             ["bin", "0", "-", "1", "-", "-"],
         ])
@@ -125,7 +125,7 @@ def generate(rng, tier):
     for _ in range(20 if tier == "quick" else 100):
         data = rng.choice([b"AB", b"ON", b"\x3c\x00", b"\x40\x00", b"\x00\x00"])
         if rng.random() < 0.5:
-            enc = ["str", S("UTF-8"), "16", "-", "-", "1", "-", "-", "-"]
+            enc = ["str", S("UTF-8"), "16", "-", "-", "1", "-", "-", "-", "-"]
             kind = ["enum", [hx(b"AB"), S("ab")], [hx(b"ON"), S("on")]]
         else:
             enc = ["float", "16", S("IEEE754"), S(MSB), ["-", []]]
